@@ -8,7 +8,7 @@ zero-prior alleles; a record without usable alleles is emitted with NOA/AF0 and 
 from __future__ import annotations
 import ast
 import re
-from ..terms import walk, show, simplify, mkbin, mkcmp, path
+from ..terms import walk, show, simplify, mkbin, mkcmp, path, atoms
 from ..kernels import kwargs, collapse
 from ..pat import has, find, find_all
 
@@ -146,7 +146,36 @@ def rule_masks(ctx):
         ctx.check(bool(ok), 'R16.5/afprior', f.construct('AFPRIOR'), "AFPRIOR = locus.frequencies", "AFPRIOR is not the prior handed to the sampler", f.where())
 
 
+def rule_missing_info(ctx):
+    """an INFO value written as '.' is (None,) in pysam: the filter may only measure or compare the observations where `None in
+    observations` is excluded (defect K: `AC>2` on a record without alternate alleles, AC=., aborted on the length assertion);
+    the prior frequencies are converted to a float array before they are normalised in place (defect L: an Integer field)"""
+    f = ctx.func(FA + 'apply_allele_filter')
+    r = ctx.recon(f.qname)
+    obs = None
+    for c, _, _ in r.calls:
+        if c[1] == '.get' and len(c[2]) == 2 and c[2][0][0] == 'attr' and c[2][0][2] == 'info':
+            obs = c
+    ctx.need(obs is not None, f"{f.qname}: record.info.get(field) not found")
+    uses = [ev for ev in r.events if ev.kind in ('assert', 'assign', 'store') and any(x == obs for d in ev.data if isinstance(d, tuple) for x in walk(d))
+            and not (ev.kind == 'assign' and ev.data[1] == obs)]
+    ctx.need(len(uses) >= 4, f"{f.qname}: the two length assertions and the two comparisons of the observations were not found")
+    none_in = (('cmp', 'In', ('const', None), obs), False)
+    bad = [ev for ev in uses if none_in not in atoms([(c, pol) for c, pol in ev.conds])]
+    ctx.check(not bad, 'R16.6/missing-info-value', f.construct('observations'), f"{len(uses)} uses of the observations, all where `None in observations` is excluded",
+              f"the observations are measured / compared at line(s) {sorted({ev.lineno for ev in bad})} on a path where they may be (None,) - the value pysam returns for '.'", f.where())
+    g = ctx.func(FROM)
+    rg = ctx.recon(FROM)
+    arrays = [c for c, _, _ in rg.calls if c[1] == 'numpy.array' and c[2] and any(x[0] == 'call' and x[1] == '.get' and x[2][0][0] == 'attr' and x[2][0][2] == 'info' for x in walk(c[2][0]))]
+    ctx.need(len(arrays) == 1, f"{FROM}: conversion of the prior frequency field to an array not found")
+    dt = dict(arrays[0][3]).get('dtype') or (arrays[0][2][1] if len(arrays[0][2]) > 1 else None)
+    ok = dt is not None and show(dt) in ('float', 'numpy.float64', "'float'", 'numpy.float_')
+    ctx.check(ok, 'R16.7/float-frequencies', g.construct('frequencies'), "prior frequencies are a float array before the in-place normalisation",
+              "the prior frequency field is converted without dtype=float: an Integer INFO field gives an integer array, and `frequencies /= denom` raises", g.where())
+
+
 def run(ctx):
+    rule_missing_info(ctx)
     rule_operators(ctx)
     rule_from_record(ctx)
     rule_masks(ctx)
